@@ -1558,7 +1558,13 @@ def corpus(seed, n):
     out = []
     keys = list(TEMPLATES)
     ti = 0
-    for i in range(n):
+    # the catalogue first, every template several times (templates choose among variants at
+    # random: a variant that is drawn once in three runs would be missed two runs in three)
+    reps = 6 if n <= 2000 else 12
+    for key in keys:
+        for r in range(reps):
+            out.append((f"{key}#c{r}", TEMPLATES[key](random.Random(f"{seed}-{key}-{r}"))))
+    for i in range(max(0, n - len(out))):
         k = rng.random()
         if k < 0.22:
             out.append((f"wf{i}", wellformed(rng)))
